@@ -133,6 +133,17 @@ Theorem C11_source_getitem : forall s i j, Inv0 s -> norm_index (length (m_live 
 Proof. exact source_getitem. Qed.
 Print Assumptions C11_source_getitem.
 
+(* isdisjoint / issubset / issuperset / count / in / len as written in the source are what m_step returns *)
+Theorem C11_source_predicates : forall s o x,
+  snd (m_step1 gen_cfg s (IsDisjoint o)) = Ok (RBool (src_isdisjoint s o)) /\
+  snd (m_step1 gen_cfg s (IsSubset o)) = Ok (RBool (src_issubset s o)) /\
+  snd (m_step1 gen_cfg s (IsSuperset o)) = Ok (RBool (src_issuperset s o)) /\
+  snd (m_step1 gen_cfg s (Count x)) = Ok (RNat (src_count s x)) /\
+  snd (m_step1 gen_cfg s (Contains x)) = Ok (RBool (src_contains s x)) /\
+  snd (m_step1 gen_cfg s Len) = Ok (RNat (src_len s)).
+Proof. exact source_predicates. Qed.
+Print Assumptions C11_source_predicates.
+
 (* s[a:b:k], k > 0: iter_slice + islice = the list slice of CPython *)
 Theorem C11_slice : forall s a b k, Inv s -> valid_op (m_live s) (Slice a b k) = true ->
   m_slice s a b k = snd (spec_step (m_live s) (Slice a b k)).
